@@ -84,7 +84,7 @@ func containsSym(v value, depth int) bool {
 		return false
 	}
 	switch x := v.(type) {
-	case symBool, symInt, symF64, symStr, rope, optPtr, *jsonTok, opaqueBytesV:
+	case symBool, symInt, symF64, symStr, rope, optPtr, *jsonTok, opaqueBytesV, timeTok:
 		return true
 	case iface:
 		return containsSym(x.v, depth+1)
@@ -124,6 +124,19 @@ func eqValue(t types.Type, x, y value) value {
 		return strEq(x, y)
 	case optPtr:
 		return ptrEq(x, y)
+	case *jsonTok:
+		// a JSON token stands for a non-nil []byte; slices compare with nil only
+		if ys, ok := y.([]value); ok {
+			return ys != nil && false
+		}
+		return false
+	case opaqueBytesV:
+		return false
+	case []value:
+		switch y.(type) {
+		case *jsonTok, opaqueBytesV:
+			return false
+		}
 	case *value:
 		if _, ok := y.(optPtr); ok {
 			return ptrEq(x, y)
